@@ -103,3 +103,435 @@ Proof.
     destruct (filter is_reduce l) as [|[s|p0|] r]; try reflexivity. rewrite (Hm p0). reflexivity. }
   rewrite Hr. reflexivity.
 Qed.
+
+(* ---- unpacking plain_ok ------------------------------------------------------------------ *)
+Lemma prod_eqb_eq a b : prod_eqb a b = true <-> a = b.
+Proof.
+  unfold prod_eqb. rewrite andb_true_iff, N.eqb_eq, (list_eqb_eq sym_eqb sym_eqb_eq).
+  destruct a, b; cbn. split; [intros [-> ->]; reflexivity|intros H; inversion H; auto].
+Qed.
+
+Lemma meta_default_eq m : meta_is_default m = true -> m = default_meta.
+Proof.
+  unfold meta_is_default. rewrite !andb_true_iff, !N.eqb_eq, !negb_true_iff.
+  destruct m; cbn. intros [[[-> ->] ->] ->]. reflexivity.
+Qed.
+
+Record plain (c : tconf) : Prop := mkPlain {
+  pl_ps : tc_ps c = false;
+  pl_pse : tc_pse c = false;
+  pl_meta : forall p, meta_of c p = default_meta;
+  pl_wf : prods_wfb (tc_empty c) (tc_nnts c) (tc_nterms c) (tc_prods c) = true;
+  pl_swap : swap_start c = tc_prods c;
+  pl_trail : forall p, In p (tc_prods c) -> trailing_emptyb (tc_empty c) (rhs p) = true;
+  pl_aug : aug_ok (cfg_std c) = true;
+  pl_aug1 : forall p, In p (tl (tc_prods c)) -> lhs p <> aug_nt c;
+  pl_stop : tc_stop c <> tc_empty c;
+  pl_stop1 : forall p, In p (tl (tc_prods c)) -> ~ In (T (tc_stop c)) (rhs p)
+}.
+
+Lemma plain_ok_plain c : plain_ok c = true -> plain c.
+Proof.
+  unfold plain_ok. rewrite !andb_true_iff, !negb_true_iff.
+  intros [[[[[[[[[H1 H2] H3] H4] H5] H6] H7] H8] H9] H10].
+  constructor; try assumption.
+  - intros p. unfold meta_of. rewrite forallb_forall in H3.
+    destruct (nth_in_or_default (N.to_nat p) (tc_meta c) default_meta) as [Hin|Heq];
+      [|rewrite Heq; reflexivity].
+    apply meta_default_eq. apply H3. exact Hin.
+  - apply (list_eqb_eq prod_eqb prod_eqb_eq). exact H5.
+  - rewrite forallb_forall in H6. exact H6.
+  - rewrite forallb_forall in H8. intros p Hp. specialize (H8 p Hp).
+    apply negb_true_iff, N.eqb_neq in H8. exact H8.
+  - apply N.eqb_neq. exact H9.
+  - rewrite forallb_forall in H10. intros p Hp Hin. specialize (H10 p Hp).
+    rewrite forallb_forall in H10. specialize (H10 _ Hin). rewrite sym_eqb_refl in H10. discriminate.
+Qed.
+
+Lemma In_skipn {X} (x : X) n l : In x (skipn n l) -> In x l.
+Proof.
+  revert n. induction l as [|y r IH]; intros [|n] H; cbn in *; auto. right. eapply IH. exact H.
+Qed.
+
+Lemma nth_error_strip_prods e ps k :
+  nth_error (strip_prods e ps) k =
+  option_map (fun p => mkProd (lhs p) (strip e (rhs p))) (nth_error ps k).
+Proof. unfold strip_prods. apply nth_error_map. Qed.
+
+Lemma prods_of_same_lhs (g1 g2 : list prod) b :
+  map lhs g1 = map lhs g2 -> prods_of g1 b = prods_of g2 b.
+Proof.
+  intros H. unfold prods_of.
+  assert (Hlen : length g1 = length g2) by (rewrite <- (map_length lhs g1), H, map_length; reflexivity).
+  rewrite Hlen. f_equal. apply filter_ext. intros k.
+  assert (Hk : option_map lhs (nth_error g1 k) = option_map lhs (nth_error g2 k))
+    by (rewrite <- !nth_error_map, H; reflexivity).
+  destruct (nth_error g1 k), (nth_error g2 k); cbn in Hk; try discriminate; [|reflexivity].
+  inversion Hk. reflexivity.
+Qed.
+
+Lemma reduce_all_spec c fo all l : forall t,
+  reduce_all c fo all l = Some t ->
+  length t = length l /\
+  forall s st, nth_error l s = Some st ->
+    exists acts, reduce_state c fo all st = Some acts /\ nth_error t s = Some (finish_state c st acts).
+Proof.
+  induction l as [|st0 r IH]; intros t H; cbn [reduce_all] in H.
+  - inversion H; subst. split; [reflexivity|]. intros s st Hs. destruct s; discriminate.
+  - destruct (reduce_state c fo all st0) as [a|] eqn:Ea; [|discriminate].
+    destruct (reduce_all c fo all r) as [t'|] eqn:Er; [|discriminate]. inversion H; subst t.
+    destruct (IH t' eq_refl) as [Hl Hn]. split; [cbn; congruence|].
+    intros s st Hs. destruct s as [|s]; cbn in Hs.
+    + inversion Hs; subst st0. exists a. auto.
+    + apply Hn. exact Hs.
+Qed.
+
+(* ---- the built table ------------------------------------------------------------------------ *)
+Section Built.
+  Variable c : tconf.
+  Hypothesis Hpl : plain c.
+  Hypothesis Hlr0 : tc_lr1 c = false.
+
+  Notation e := (tc_empty c).
+  Notation stop := (tc_stop c).
+  Notation ps := (tc_prods c).
+  Notation nnts := (tc_nnts c).
+  Notation nterms := (tc_nterms c).
+  Notation g := (cfg_of c).
+  Notation g0 := (cfg_std c).
+  Notation aug := (aug_nt c).
+  Notation s0 := (start_nt c).
+
+  (* ---- the grammars ------------------------------------------------------------------------ *)
+  Lemma ps_shape : exists p0 rest, ps = p0 :: rest /\ lhs p0 = aug /\ rhs p0 = [NT s0; T stop].
+  Proof.
+    pose proof (pl_swap c Hpl) as Hs. pose proof (pl_aug c Hpl) as Ha.
+    unfold swap_start in Hs. destruct ps as [|p0 rest] eqn:Eps.
+    - exfalso. unfold cfg_std, cfg_of, swap_start in Ha. rewrite Eps in Ha. cbn in Ha. discriminate.
+    - exists p0, rest. split; [reflexivity|]. inversion Hs as [[H0]].
+      split; [unfold aug_nt, lhs_of; rewrite Eps; reflexivity|].
+      apply (f_equal rhs) in H0. cbn [rhs] in H0. unfold start_nt. rewrite Eps. symmetry. first [exact H0|reflexivity].
+  Qed.
+
+  Lemma g_eq : g = strip_prods e ps.
+  Proof. unfold cfg_of. rewrite (pl_swap c Hpl). reflexivity. Qed.
+
+  Lemma strip_prod0 : strip e [NT s0; T stop] = [NT s0; T stop].
+  Proof.
+    unfold strip. cbn. destruct (N.eqb_spec stop e) as [H|_]; [|reflexivity].
+    exfalso. exact (pl_stop c Hpl H).
+  Qed.
+
+  Lemma g0_eq : exists p0 rest, ps = p0 :: rest /\ lhs p0 = aug /\ rhs p0 = [NT s0; T stop] /\
+                                g0 = mkProd aug [NT s0] :: strip_prods e rest.
+  Proof.
+    destruct ps_shape as (p0 & rest & Eps & Hl & Hr). exists p0, rest.
+    split; [exact Eps|]. split; [exact Hl|]. split; [exact Hr|].
+    unfold cfg_std. rewrite g_eq, Eps. cbn. rewrite Hl. reflexivity.
+  Qed.
+
+  Lemma get_prod_g0_0 : get_prod g0 0 = Some (mkProd aug [NT s0]).
+  Proof. destruct g0_eq as (p0 & rest & _ & _ & _ & ->). reflexivity. Qed.
+
+  Lemma get_prod_g0 p : p <> 0 ->
+    get_prod g0 p = option_map (fun pr => mkProd (lhs pr) (strip e (rhs pr))) (nth_error ps (N.to_nat p)).
+  Proof.
+    intros Hp. destruct g0_eq as (p0 & rest & Eps & _ & _ & ->). unfold get_prod. rewrite Eps.
+    destruct (N.to_nat p) as [|k] eqn:Ek; [lia|]. cbn. apply nth_error_strip_prods.
+  Qed.
+
+  Lemma rhs_of_g p : rhs_of g p = strip e (rhs_raw ps p).
+  Proof.
+    unfold rhs_of, get_prod, rhs_raw. rewrite g_eq, nth_error_strip_prods.
+    destruct (nth_error ps (N.to_nat p)); reflexivity.
+  Qed.
+
+  Lemma trailing_raw p : trailing_emptyb e (rhs_raw ps p) = true.
+  Proof.
+    unfold rhs_raw. destruct (nth_error ps (N.to_nat p)) as [pr|] eqn:E; [|reflexivity].
+    apply (pl_trail c Hpl). eapply nth_error_In. exact E.
+  Qed.
+
+  Lemma sym_at_strip p d : sym_at ps e p d = nth_error (strip e (rhs_raw ps p)) d.
+  Proof. unfold sym_at. apply rget_strip. apply trailing_raw. Qed.
+
+  Lemma rhs_raw_0 : rhs_raw ps 0 = [NT s0; T stop].
+  Proof. destruct ps_shape as (p0 & rest & Eps & _ & Hr). unfold rhs_raw. rewrite Eps. exact Hr. Qed.
+
+  Lemma lhs_of_0 : lhs_of ps 0 = aug.
+  Proof. reflexivity. Qed.
+
+  Lemma map_lhs_g0 : map lhs g0 = map lhs ps.
+  Proof.
+    destruct g0_eq as (p0 & rest & Eps & Hl & _ & ->). rewrite Eps. cbn. rewrite Hl. f_equal.
+    unfold strip_prods. rewrite map_map. reflexivity.
+  Qed.
+
+  (* S' occurs in no right-hand side *)
+  Lemma aug_not_in_raw p d : sym_at ps e p d <> Some (NT aug).
+  Proof.
+    intros H. rewrite sym_at_strip in H. pose proof (pl_aug c Hpl) as Ha. unfold aug_ok in Ha.
+    rewrite get_prod_g0_0 in Ha. cbn [lhs] in Ha. rewrite forallb_forall in Ha.
+    destruct (N.eq_dec p 0) as [->|Hp].
+    - rewrite rhs_raw_0, strip_prod0 in H.
+      assert (Hin : In (mkProd aug [NT s0]) g0) by (apply (nth_error_In g0 (N.to_nat 0)); exact get_prod_g0_0).
+      specialize (Ha _ Hin). cbn [rhs] in Ha. rewrite forallb_forall in Ha.
+      destruct d as [|[|d]]; cbn in H; inversion H as [E].
+      specialize (Ha (NT s0) (or_introl eq_refl)). rewrite E, sym_eqb_refl in Ha.
+      discriminate.
+      destruct d; discriminate.
+    - pose proof (get_prod_g0 p Hp) as Hg. unfold rhs_raw in H.
+      destruct (nth_error ps (N.to_nat p)) as [pr|] eqn:E; [|destruct d; discriminate].
+      cbn in Hg. assert (Hin : In (mkProd (lhs pr) (strip e (rhs pr))) g0).
+      { unfold get_prod in Hg. eapply nth_error_In. exact Hg. }
+      specialize (Ha _ Hin). cbn [rhs] in Ha. rewrite forallb_forall in Ha.
+      apply nth_error_In in H. specialize (Ha _ H). rewrite sym_eqb_refl in Ha. discriminate.
+  Qed.
+
+  (* ---- the pieces of create_table ------------------------------------------------------- *)
+  Variables (fs fo : fsets) (all : list mstate) (t : table).
+  Hypothesis Hfs : first_sets e (tc_ffuel c) nnts ps = Some fs.
+  Hypothesis Hfo : follow_sets e (tc_ffuel c) fs nnts ps = Some fo.
+  Hypothesis Hinv : sinv ps e stop (length all) all.
+  Hypothesis Ht : reduce_all c fo all all = Some t.
+
+  Notation FT := (fst_tab_of e fs).
+  Notation NTb := (nul_tab_of e fs).
+  Notation FT0 := (fst_std c fs).
+  Notation NT0 := (nul_std c fs).
+  Definition ann : list (list litem) := map (map (litem_of c fo)) (map ms_items all).
+
+  Lemma Hfsinv : fs_inv nnts nterms fs.
+  Proof. eapply first_inv; [exact (pl_wf c Hpl)|exact Hfs]. Qed.
+
+  Lemma Hfoinv : fo_inv e nnts nterms fo.
+  Proof. eapply follow_inv; [exact Hfsinv|exact (pl_wf c Hpl)|exact Hfo]. Qed.
+
+  Lemma state_of s st : nth_error all s = Some st ->
+    state_wf ps e stop st /\ state_done ps e stop all st.
+  Proof.
+    intros Hs. split; [apply (si_nodup _ _ _ _ _ Hinv s st Hs)|].
+    apply (si_done _ _ _ _ _ Hinv s st); [|exact Hs]. apply nth_error_Some. congruence.
+  Qed.
+
+  Lemma table_state s st : nth_error all s = Some st ->
+    nth_error t s = Some (finish_state c st (unresolved g (ritems_of c fo st) (ms_acts st))).
+  Proof.
+    intros Hs. destruct (reduce_all_spec c fo all all t Ht) as [_ Hn].
+    destruct (Hn s st Hs) as (acts & Hr & Hts). rewrite Hts. f_equal. f_equal.
+    unfold reduce_state in Hr.
+    rewrite (reduce_phase_ext g (meta_of c) (fun _ => default_meta) _ _ _ _ _ (pl_meta c Hpl)) in Hr.
+    rewrite (pl_ps c Hpl), (pl_pse c Hpl) in Hr.
+    apply default_is_unresolved in Hr. exact Hr.
+  Qed.
+
+  Lemma table_length : length t = length all.
+  Proof. exact (proj1 (reduce_all_spec c fo all all t Ht)). Qed.
+
+  Lemma cell_eq s st a : nth_error all s = Some st ->
+    cell t s a = match assoc a (unresolved g (ritems_of c fo st) (ms_acts st)) with
+                 | Some l => l | None => [] end.
+  Proof.
+    intros Hs. unfold cell, get_state. rewrite (table_state s st Hs). cbn [finish_state st_actions].
+    unfold sort_cells. set (acts := unresolved g (ritems_of c fo st) (ms_acts st)).
+    assert (Hp : Permutation acts (Determ.sort_by (cell_before c) acts))
+      by (apply Permutation_sym, DetermProofs.sort_by_perm).
+    assert (Hnd : NoDup (map fst acts)).
+    { unfold acts, unresolved. apply raw_fold_nodup. apply (proj2 (proj1 (state_of s st Hs))). }
+    rewrite (assoc_perm a acts _ Hp Hnd). reflexivity.
+  Qed.
+
+  Lemma cell_keeps s st a l x : nth_error all s = Some st ->
+    assoc a (ms_acts st) = Some l -> In x l -> In x (cell t s a).
+  Proof.
+    intros Hs Ha Hx. rewrite (cell_eq s st a Hs). unfold unresolved.
+    destruct (raw_fold_keeps (work_of g (ritems_of c fo st)) (ms_acts st) a l x Ha Hx) as (l' & H1 & H2).
+    rewrite H1. exact H2.
+  Qed.
+
+  Lemma goto_eq s st b : nth_error all s = Some st -> goto t s b = assoc b (ms_gotos st).
+  Proof.
+    intros Hs. unfold goto, get_state. rewrite (table_state s st Hs). reflexivity.
+  Qed.
+
+  Lemma cell_reduce s st p d a : nth_error all s = Some st ->
+    In (p, d) (pds (ms_items st)) -> d = length (strip e (rhs_raw ps p)) ->
+    In a (fget fo (lhs_of ps p)) -> In (Reduce p) (cell t s a).
+  Proof.
+    intros Hs Hin Hd Ha. rewrite (cell_eq s st a Hs). unfold unresolved.
+    destruct (raw_fold_adds (work_of g (ritems_of c fo st)) (ms_acts st) p a) as (l' & H1 & H2).
+    - unfold work_of. apply in_flat_map. apply pds_In in Hin. destruct Hin as (it & Hit & Hpd).
+      unfold pd in Hpd. inversion Hpd as [[Ep Ed]]. clear Hpd.
+      exists (mkRItem (it_p it) (it_d it) (fget fo (lhs_of ps (it_p it)))). split.
+      + unfold ritems_of. apply in_map_iff. exists it. split; [|exact Hit].
+        rewrite Hlr0, (pl_swap c Hpl). reflexivity.
+      + unfold at_end. cbn [ri_prod ri_dot ri_follow]. rewrite rhs_of_g, Ep, Ed, <- Hd, Nat.eqb_refl.
+        apply in_map_iff. exists a. auto.
+    - rewrite H1. exact H2.
+  Qed.
+
+  (* ---- the annotation ---------------------------------------------------------------------- *)
+  Lemma ann_of_nth s st : nth_error all s = Some st ->
+    ann_of ann s = map (litem_of c fo) (ms_items st).
+  Proof.
+    intros Hs. unfold ann_of, ann. rewrite map_map.
+    apply (nth_error_nth _ _ []). rewrite nth_error_map, Hs. reflexivity.
+  Qed.
+
+  Definition litem_pd (p : N) (d : nat) : litem := (p, d, fget fo (lhs_of ps p)).
+
+  Lemma litem_of_pd it : litem_of c fo it = litem_pd (it_p it) (it_d it).
+  Proof. unfold litem_of, litem_pd. rewrite Hlr0, (pl_swap c Hpl). reflexivity. Qed.
+
+  Lemma has_litem_intro s st p d L : nth_error all s = Some st ->
+    In (p, d) (pds (ms_items st)) ->
+    (forall x, In x L -> In x (eff_L stop (litem_pd p d))) ->
+    has_litem ann stop s p d L = true.
+  Proof.
+    intros Hs Hin HL. unfold has_litem. rewrite (ann_of_nth s st Hs). apply existsb_exists.
+    apply pds_In in Hin. destruct Hin as (it & Hit & Hpd). unfold pd in Hpd. inversion Hpd; subst p d.
+    exists (litem_of c fo it). split; [apply in_map; exact Hit|]. rewrite litem_of_pd.
+    unfold litem_pd, li_p, li_d. cbn [fst snd]. rewrite N.eqb_refl, Nat.eqb_refl. cbn [andb].
+    apply subset_spec. exact HL.
+  Qed.
+
+  (* ---- the FIRST / nullable certificate for the grammar with S' -> start ------------------ *)
+  Lemma aug_lt : (N.to_nat aug < length fs)%nat.
+  Proof.
+    destruct ps_shape as (p0 & rest & Eps & Hl & _). rewrite (proj1 Hfsinv), <- Hl.
+    apply (wf_prod e nnts nterms ps (pl_wf c Hpl) p0). rewrite Eps. left. reflexivity.
+  Qed.
+
+  Lemma fst_nt0 a :
+    fst_nt FT0 a = if a =? aug then nremove e (fget fs s0) else fst_nt FT a.
+  Proof.
+    unfold fst_nt, fst_std. destruct (N.eqb_spec a aug) as [->|Hne].
+    - apply nth_upd_nth_eq. unfold fst_tab_of. rewrite map_length. exact aug_lt.
+    - apply nth_upd_nth_neq. intros E. apply Hne. apply N2Nat.inj. congruence.
+  Qed.
+
+  Lemma nul_nt0 a :
+    nul_nt NT0 a = if a =? aug then nmem e (fget fs s0) else nul_nt NTb a.
+  Proof.
+    unfold nul_nt, nul_std. destruct (N.eqb_spec a aug) as [->|Hne].
+    - apply nth_upd_nth_eq. unfold nul_tab_of. rewrite map_length. exact aug_lt.
+    - apply nth_upd_nth_neq. intros E. apply Hne. apply N2Nat.inj. congruence.
+  Qed.
+
+  Lemma seq_same xs : (forall x, In x xs -> x <> NT aug) ->
+    fst_seq FT0 NT0 xs = fst_seq FT NTb xs /\ nul_seq NT0 xs = nul_seq NTb xs.
+  Proof.
+    induction xs as [|x r IH]; intros H; [split; reflexivity|].
+    destruct (IH (fun y Hy => H y (or_intror Hy))) as [IH1 IH2].
+    assert (Hx : fst_sym FT0 x = fst_sym FT x /\ nul_sym NT0 x = nul_sym NTb x).
+    { destruct x as [a|a]; [split; reflexivity|]. cbn [fst_sym nul_sym].
+      rewrite fst_nt0, nul_nt0. destruct (N.eqb_spec a aug) as [->|_]; [|split; reflexivity].
+      exfalso. apply (H (NT aug)); [left; reflexivity|reflexivity]. }
+    destruct Hx as [Hx1 Hx2]. cbn [fst_seq nul_seq forallb]. unfold nul_seq in IH2.
+    rewrite Hx1, Hx2, IH1, IH2. split; reflexivity.
+  Qed.
+
+  Lemma strip_no_aug p x : In x (strip e (rhs_raw ps p)) -> x <> NT aug.
+  Proof.
+    intros Hin ->. apply In_nth_error in Hin. destruct Hin as (d & Hd).
+    apply (aug_not_in_raw p d). rewrite sym_at_strip. exact Hd.
+  Qed.
+
+  Lemma first_closed_std : first_closed g0 FT0 NT0 = true.
+  Proof.
+    pose proof (first_closed_ok e ps _ _ fs Hfs) as Hc. unfold first_closed in *.
+    rewrite forallb_forall in Hc. apply forallb_forall. intros pr Hpr.
+    destruct g0_eq as (p0 & rest & Eps & Hl & Hr & Eg0). rewrite Eg0 in Hpr.
+    destruct Hpr as [<-|Hpr].
+    - cbn [lhs rhs]. assert (Hs0 : s0 <> aug).
+      { intros E. apply (aug_not_in_raw 0 0). rewrite sym_at_strip, rhs_raw_0, strip_prod0. cbn. congruence. }
+      cbn [fst_seq nul_seq forallb fst_sym nul_sym]. rewrite !fst_nt0, !nul_nt0.
+      rewrite N.eqb_refl. apply N.eqb_neq in Hs0. rewrite Hs0. apply andb_true_iff. split.
+      + apply subset_spec. intros y Hy. apply in_app_iff in Hy. destruct Hy as [Hy|Hy].
+        * rewrite fst_nt_tab in Hy. exact Hy.
+        * destruct (nul_nt NTb s0); destruct Hy.
+      + rewrite andb_true_r, nul_nt_tab. destruct (nmem e (fget fs s0)); reflexivity.
+    - unfold strip_prods in Hpr. apply in_map_iff in Hpr. destruct Hpr as (praw & <- & Hraw).
+      assert (Hin : In praw ps) by (rewrite Eps; right; exact Hraw).
+      specialize (Hc (mkProd (lhs praw) (strip e (rhs praw))) (in_strip_prods e ps praw Hin)).
+      cbn [lhs rhs] in *.
+      apply In_nth_error in Hin. destruct Hin as (k & Hk).
+      assert (Hraw' : rhs_raw ps (N.of_nat k) = rhs praw) by (unfold rhs_raw; rewrite Nat2N.id, Hk; reflexivity).
+      destruct (seq_same (strip e (rhs praw))) as [E1 E2].
+      { intros x Hx. apply (strip_no_aug (N.of_nat k)). rewrite Hraw'. exact Hx. }
+      rewrite E1, E2, fst_nt0, nul_nt0.
+      assert (Hne : lhs praw <> aug).
+      { apply (pl_aug1 c Hpl). rewrite Eps. exact Hraw. }
+      apply N.eqb_neq in Hne. rewrite Hne. exact Hc.
+  Qed.
+
+  (* ---- FOLLOW covers what follows a nonterminal in an item ----------------------------------- *)
+  Lemma trailing_prefix r : trailing_emptyb e r = true ->
+    exists tl, r = strip e r ++ tl /\ forallb (is_EMPTY e) tl = true.
+  Proof.
+    induction r as [|x r IH]; intros H; [exists []; auto|]. cbn [trailing_emptyb] in H.
+    destruct (is_EMPTY e x) eqn:Ex.
+    - exists (x :: r). assert (Hall : forallb (is_EMPTY e) (x :: r) = true) by (cbn; rewrite Ex; exact H).
+      rewrite (strip_all_empty e _ Hall). auto.
+    - destruct (IH H) as (tl & E & Htl). exists tl. unfold strip. cbn [filter]. rewrite Ex. cbn [negb app].
+      split; [f_equal; exact E|exact Htl].
+  Qed.
+
+  Lemma fst_seq_no_e xs y : (forall x, In x xs -> is_EMPTY e x = false) ->
+    In y (fst_seq FT NTb xs) -> y <> e.
+  Proof.
+    induction xs as [|x r IH]; intros Hx Hy; [destruct Hy|]. cbn [fst_seq] in Hy.
+    apply in_app_iff in Hy. destruct Hy as [Hy|Hy].
+    - apply (fst_sym_tab e fs x y (Hx x (or_introl eq_refl))) in Hy. tauto.
+    - destruct (nul_sym NTb x); [|destruct Hy]. apply IH; [|exact Hy].
+      intros z Hz. apply Hx. right. exact Hz.
+  Qed.
+
+  Lemma strip_not_empty r x : In x (strip e r) -> is_EMPTY e x = false.
+  Proof. unfold strip. intros H. apply filter_In in H. apply negb_true_iff. tauto. Qed.
+
+  Lemma after_sub p d b pr :
+    get_prod g0 p = Some pr -> nth_error (rhs pr) d = Some (NT b) -> (N.to_nat b < nnts)%nat ->
+    forall y, In y (after FT0 NT0 stop pr (litem_pd p d)) -> In y (fget fo b).
+  Proof.
+    intros Hp Hd Hb y Hy. pose proof (follow_closed_ok e fs ps _ nnts fo Hfo) as Hclosed.
+    destruct (N.eq_dec p 0) as [->|Hne].
+    - rewrite get_prod_g0_0 in Hp. inversion Hp; subst pr. cbn [rhs] in Hd.
+      destruct d as [|d]; [|destruct d; discriminate]. cbn in Hd. inversion Hd; subst b.
+      unfold after, litem_pd, li_d, eff_L, li_p in Hy. cbn in Hy. destruct Hy as [<-|[]].
+      destruct ps_shape as (p0 & rest & Eps & Hl & Hr).
+      assert (Hin : In p0 ps) by (rewrite Eps; left; reflexivity).
+      apply (Hclosed s0 p0 Hb Hin [] [T stop]); [rewrite Hr; reflexivity|exact (pl_stop c Hpl)|].
+      cbn. left. left. reflexivity.
+    - rewrite (get_prod_g0 p Hne) in Hp.
+      destruct (nth_error ps (N.to_nat p)) as [praw|] eqn:Eraw; [|discriminate].
+      cbn in Hp. inversion Hp; subst pr. cbn [rhs] in Hd.
+      assert (Hraw : rhs_raw ps p = rhs praw) by (unfold rhs_raw; rewrite Eraw; reflexivity).
+      assert (Hlhs : lhs_of ps p = lhs praw) by (unfold lhs_of; rewrite Eraw; reflexivity).
+      assert (Htr : trailing_emptyb e (rhs praw) = true) by (rewrite <- Hraw; apply trailing_raw).
+      destruct (trailing_prefix _ Htr) as (tl & Etl & _).
+      assert (Hdlt : (d < length (strip e (rhs praw)))%nat) by (apply nth_error_Some; congruence).
+      assert (Hnraw : nth_error (rhs praw) d = Some (NT b)).
+      { rewrite Etl, nth_error_app1 by exact Hdlt. exact Hd. }
+      destruct (nth_error_split _ _ Hnraw) as (pre & suf & Esplit & Hlen).
+      assert (Hsuf : strip e suf = skipn (S d) (strip e (rhs praw))).
+      { rewrite <- (rslice_strip e (rhs praw) Htr (S d)) by (unfold rlen, strip in *; lia).
+        unfold rslice. rewrite Esplit. f_equal.
+        rewrite <- Hlen. clear. induction pre as [|x r IH]; [reflexivity|exact IH]. }
+      assert (Hin : In praw ps) by (eapply nth_error_In; exact Eraw).
+      unfold after, litem_pd, li_d, eff_L, li_p, li_L in Hy. cbn [fst snd rhs] in Hy.
+      apply N.eqb_neq in Hne. rewrite Hne in Hy.
+      destruct (seq_same (skipn (S d) (strip e (rhs praw)))) as [E1 E2].
+      { intros x Hx. apply (strip_no_aug p). rewrite Hraw. eapply In_skipn; exact Hx. }
+      rewrite E1, E2, Hlhs in Hy.
+      assert (Hye : y <> e).
+      { apply in_app_iff in Hy. destruct Hy as [Hy|Hy].
+        - eapply fst_seq_no_e; [|exact Hy]. intros x Hx. apply (strip_not_empty (rhs praw)).
+          eapply In_skipn; exact Hx.
+        - destruct (nul_seq NTb _); [|destruct Hy]. intros ->. exact (proj2 Hfoinv (lhs praw) Hy). }
+      apply (Hclosed b praw Hb Hin pre suf Esplit y Hye).
+      apply (sfirst_strip e fs _ suf y Hye). rewrite Hsuf.
+      apply in_app_iff in Hy. destruct Hy as [Hy|Hy]; [left; exact Hy|right].
+      destruct (nul_seq NTb _); [auto|destruct Hy].
+  Qed.
+End Built.
